@@ -112,6 +112,15 @@ fn list_ops(kind: usize) -> Vec<Op> {
     ops.push(mk("do\n        ll :: l\n        print(filter(ll, pu x -> fold(filter(ll, pu y -> y == x end), 0, pu y, acc -> acc + 1 end) >= 2 end))\n    end".into(), "filter(fold(filter))", std::sync::Arc::new(|l, out| {
         out.push(show_list(&l.iter().filter(|x| l.iter().filter(|y| y == x).count() >= 2).cloned().collect::<Vec<_>>()));
     })));
+    // find / filter whose callbacks call back into a lookup of the same list (find itself is impure: not callable there)
+    ops.push(mk("do\n        ll :: l\n        print(list.find(ll, pu y -> list.get(ll, 1) == (Maybe.Just y) end))\n    end".into(), "find(get)", std::sync::Arc::new(|l, out| {
+        let target = l.get(1).cloned();
+        out.push(show_maybe(l.iter().find(|y| Some((*y).clone()) == target)));
+    })));
+    ops.push(mk("do\n        ll :: l\n        print(filter(ll, pu y -> list.get(ll, 0) != (Maybe.Just y) end))\n    end".into(), "filter(get)", std::sync::Arc::new(|l, out| {
+        let first = l.first().cloned();
+        out.push(show_list(&l.iter().filter(|y| Some((*y).clone()) != first).cloned().collect::<Vec<_>>()));
+    })));
     if kind == 0 {
         ops.push(mk("do\n        ll :: l\n        print(map(ll, pu x -> fold(map(ll, pu y -> y * x end), 0, pu y, acc -> acc + y end) end))\n    end".into(), "map(fold(map))", std::sync::Arc::new(|l, out| {
             let ints: Vec<i64> = l.iter().map(|x| if let Val::I(i) = x { *i } else { 0 }).collect();
